@@ -380,4 +380,3 @@ def rules(ctx):
         Rule("R23.d", "the two unsafe blocks are guarded by their asserts and by the one-byte Event layout", 6, r23d),
         Rule("R23.e", "syntax-error locations are token ranges", 4, r23e),
     ]
-READY = False
